@@ -103,10 +103,10 @@ func (c *Ctx) floor(rule string, n int) {
 	}
 	c.floors[c.Prop+"."+rule] = n
 }
-func (c *Ctx) note(format string, a ...any)      { c.notes = append(c.notes, fmt.Sprintf(format, a...)) }
-func (c *Ctx) assumes(s ...string)               { c.assume = append(c.assume, s...) }
-func (c *Ctx) trusted(s ...string)               { c.trust = append(c.trust, s...) }
-func (c *Ctx) looked(fn string)                  { c.funcs[fn] = true }
+func (c *Ctx) note(format string, a ...any) { c.notes = append(c.notes, fmt.Sprintf(format, a...)) }
+func (c *Ctx) assumes(s ...string)          { c.assume = append(c.assume, s...) }
+func (c *Ctx) trusted(s ...string)          { c.trust = append(c.trust, s...) }
+func (c *Ctx) looked(fn string)             { c.funcs[fn] = true }
 func (c *Ctx) check(cond bool, rule, key, pos, okDetail, badDetail string) {
 	if cond {
 		c.ok(rule, key, pos, okDetail)
